@@ -355,8 +355,7 @@ theorem truncW_residual (S n : Nat) (θ : Rat) (hθ : 0 ≤ θ) (bel : Nat → N
     rw [sumTo_const] at this
     exact this
 
-/-- the slack that pays: `e = C·D/(1−γ)` -/
-def truncSlack (γ C D : Rat) : Rat := C * D / (1 - γ)
+/-! the slack that pays: `truncSlack γ C D = C·D/(1−γ)` (Model/POMDP3, used by the driver's `cutSlack`) -/
 
 theorem truncSlack_pays (γ C D : Rat) (hγ : γ < 1) : C * D ≤ (1 - γ) * truncSlack γ C D := by
   unfold truncSlack
